@@ -242,7 +242,7 @@ impl Property for Prop {
         "C08"
     }
     fn rule(&self) -> &'static str {
-        "histories: seeded sequences of 200..3000 calls of provision (from the caller's pool or a fresh buffer, also when the free list is full), decap of packets targeted at each exit (valid complete / first / intermediate / end; re-use without remembered label in complete and first packets; CRC and length mismatch; oversize complete / first / intermediate / end; unknown and aliasing fragment ids; unknown mandatory extension; zero label; no storage; short GSE length per kind) mixed with hostile packets, reset; memories of 0,1,2,3,4 and 255 slots (there with the fragment ids 0 / 255, which share a slot, and 1 / 254); after EVERY call a clone-and-drain census of the bundled memory is compared with the set of buffers ever created (identity = unique length): every buffer in exactly one of caller / free / attached / quarantine. faults: for each scenario (receiver state x packet) the memory operations behind the GseDecapMemory trait are counted, then the scenario is re-run failing operation i for every i with every error the trait documents for that operation (StorageUnderflow, StorageOverflow(buf), BufferTooSmall(buf), UndefinedId, MemoryCorrupted). big: buffers of 70000+ bytes with trains that reach and exceed 65535 received bytes, audited after every call. An evaluation = one audited call; non-trivial = an audited decap call that ended in an error or moved a buffer; fingerprint = (exit signature, free count, attached count, injected fault)."
+        "histories: seeded sequences of 200..3000 calls of provision (from the caller's pool or a fresh buffer, also when the free list is full), decap of packets targeted at each exit (valid complete / first / intermediate / end; re-use without remembered label in complete and first packets; CRC and length mismatch; oversize complete / first / intermediate / end; unknown and aliasing fragment ids; unknown mandatory extension; zero label; no storage; short GSE length per kind) mixed with hostile packets, reset (single, or 300..1400 frame boundaries in a row); memories of 0,1,2,3,4 and 255 slots (there with the fragment ids 0 / 255, which share a slot, and 1 / 254); after EVERY call a clone-and-drain census of the bundled memory is compared with the set of buffers ever created (identity = unique length): every buffer in exactly one of caller / free / attached / quarantine. faults: for each scenario (receiver state x packet) the memory operations behind the GseDecapMemory trait are counted, then the scenario is re-run failing operation i for every i with every error the trait documents for that operation (StorageUnderflow, StorageOverflow(buf), BufferTooSmall(buf), UndefinedId, MemoryCorrupted). big: buffers of 70000+ bytes with trains that reach and exceed 65535 received bytes, audited after every call. An evaluation = one audited call; non-trivial = an audited decap call that ended in an error or moved a buffer; fingerprint = (exit signature, free count, attached count, injected fault)."
     }
     fn gens(&self, cx: &Cx) -> Vec<Gen> {
         vec![Gen { name: "histories", count: cx.n(1_500, 60_000), exhaustive: false }, Gen { name: "faults", count: cx.n(6_000, 300_000), exhaustive: false }, Gen { name: "big", count: cx.n(24, 600), exhaustive: false }]
@@ -271,8 +271,13 @@ impl Property for Prop {
                             (format!("provision -> {}", r), format!("provision:{}", r), r != "nothing-to-provision")
                         }
                         3 => {
-                            w.dec.reset_last_label();
-                            ("reset".to_string(), "reset".to_string(), false)
+                            // a frame boundary; now and then hundreds of them in a row (a reassembly that waits for a long
+                            // time still owns its buffer)
+                            let k = if rng.chance(1, 12) { 300 + rng.below(70000 / 64) } else { 1 };
+                            for _ in 0..k {
+                                w.dec.reset_last_label();
+                            }
+                            (format!("reset x{}", k), "reset".to_string(), false)
                         }
                         4 => {
                             let p = hostile_packet(&mut rng, &pool, &st_hint);
